@@ -57,6 +57,7 @@ type vRow struct {
 	ExpSettings *vSettings `json:"expSettings,omitempty"`
 	Lost    []int    `json:"lost"`
 	Last    bool     `json:"last"`
+	Evs     []vEvent `json:"evs,omitempty"` // what a listener was told since the previous row
 	Ms   int64   `json:"ms"`
 }
 
@@ -87,6 +88,10 @@ func (s *vScenario) open() error {
 		return err
 	}
 	s.mgr = mgr
+	if err := s.sync(); err != nil {
+		return err
+	}
+	s.listen()
 	return s.sync()
 }
 
@@ -375,6 +380,14 @@ func (s *vScenario) abandon() {
 	case <-c:
 	case <-time.After(5 * time.Second):
 	}
+	s.stopListening()
+}
+
+func (s *vScenario) stopListening() {
+	if s.evStop != nil {
+		close(s.evStop)
+		s.evStop, s.evCh = nil, nil
+	}
 }
 
 func (s *vScenario) close() {
@@ -400,6 +413,7 @@ func (s *vScenario) close() {
 		case <-time.After(5 * time.Second):
 		}
 	}
+	s.stopListening()
 	vInstallCtl(nil)
 }
 
@@ -446,7 +460,11 @@ func TestVerifManager(t *testing.T) {
 				if ev.Convs == nil {
 					ev.Convs = []string{} // the TLC Json module does not accept null
 				}
+				evs, everr := s.takeEvents()
 				st, err := s.project()
+				if err == nil {
+					err = everr
+				}
 				if err != nil {
 					js, _ := json.Marshal(vRow{Tr: tr, Sid: sid, N: n, Ev: ev, Res: "infra", Msg: err.Error()})
 					bw.Write(js)
@@ -457,7 +475,7 @@ func TestVerifManager(t *testing.T) {
 				s.trackStateFile(st)
 				obs := s.observe(st)
 				row := vRow{Tr: tr, Sid: sid, N: n, Ev: ev, Res: res, Msg: msg, St: st, Obs: obs, Ms: time.Since(t0).Milliseconds(), NoViewConvert: !s.viewConverted,
-					Lost: append([]int{}, s.lost...)}
+					Lost: append([]int{}, s.lost...), Evs: evs}
 				if extra != nil {
 					extra(&row)
 				}
